@@ -57,3 +57,39 @@ Example C13_example_replay :
   c_clogs (ck_final CReplay c13_hist) 2 = [Nx (VInt 1); Nx (VInt 2); Nx (VInt 4)] /\
   c_clogs (ck_final CReplay c13_hist) 1 = [Nx (VInt 1); Nx (VInt 2)].
 Proof. vm_compute. split; reflexivity. Qed.
+
+(* ------------------------------------------------------------------ what the subscribers see *)
+(* Proofs/ConnKRef.v: a simulation between the connectable automaton (Model/ConnK.v, which mirrors ref_count.rs / replay.rs)
+   and the reference machine of the definition (Oracle2.cref_step: "connected iff it has subscribers", "a subscriber
+   receives what the source emits while it is subscribed", replay: "the whole history, then the live stream or the
+   stored terminal"), for EVERY call history over a hot source in which each subscriber handle subscribes at most
+   once: same subscriber logs, same registered subscribers, same history, one source subscription iff connected. *)
+From RX Require Import Oracle2.
+From RXP Require Import ConnKRef.
+Theorem C13_ref_count_refines_reference :
+  forall script, NoDup (sub_handles script) ->
+  let s := fold_left (ck_step CRefCount) script ck0 in
+  let r := fold_left (cref_step CRefCount None) script cref0 in
+  (forall k, c_clogs s k = q_logs r k) /\ c_reg s = q_reg r /\ c_nsrc s = (if q_conn r then 1 else 0).
+Proof. exact ref_count_refines_reference. Qed.
+Check C13_ref_count_refines_reference :
+  forall script, NoDup (sub_handles script) ->
+  let s := fold_left (ck_step CRefCount) script ck0 in
+  let r := fold_left (cref_step CRefCount None) script cref0 in
+  (forall k, c_clogs s k = q_logs r k) /\ c_reg s = q_reg r /\ c_nsrc s = (if q_conn r then 1 else 0).
+Print Assumptions C13_ref_count_refines_reference.
+
+Theorem C13_replay_refines_reference :
+  forall script, NoDup (sub_handles script) ->
+  let s := fold_left (ck_step CReplay) script ck0 in
+  let r := fold_left (cref_step CReplay None) script cref0 in
+  (forall k, c_clogs s k = q_logs r k) /\ c_reg s = q_reg r /\ c_items s = q_items r /\ c_term s = q_term r /\
+  c_nsrc s = (if q_conn r then 1 else 0).
+Proof. exact replay_refines_reference. Qed.
+Check C13_replay_refines_reference :
+  forall script, NoDup (sub_handles script) ->
+  let s := fold_left (ck_step CReplay) script ck0 in
+  let r := fold_left (cref_step CReplay None) script cref0 in
+  (forall k, c_clogs s k = q_logs r k) /\ c_reg s = q_reg r /\ c_items s = q_items r /\ c_term s = q_term r /\
+  c_nsrc s = (if q_conn r then 1 else 0).
+Print Assumptions C13_replay_refines_reference.
